@@ -12,7 +12,7 @@
 //           layers are listed bottom-up; depth 0 is the top of the stack.
 //   handle: <depth>[/<hex>]*           (extra table wrappers created on the fly: table.New(level, p1).NewTable(p2)...)
 //   ops:    put h k v | del h k | get h k | has h k | it h prefix start
-//           bnew b h | bput b k v | bdel b k | bwrite b | breset b | brep b
+//           bnew b h | bput b k v | bdel b k | bwrite b | breset b | brep b | brepto b1 b2 (b1.Replay(b2))
 //           init d (LazyFlushable.InitUnderlyingDb) | flush d | drop d | nfp d | snap h | sget i k | shas i k | sit i prefix start
 //           compact h start limit      (range recorded at the base, not forwarded)
 //           ecompact h start limit     (forwarded to the engine: observation E ok|err)
@@ -854,6 +854,16 @@ func (s *Stack) Run(ops [][]string, stat func(string)) (obs []string) {
 			sl := slot(o[1], false)
 			sl.b.Reset()
 			sl.ops, sl.written = nil, false
+		case "brepto":
+			src := slot(o[1], true)
+			dst := slot(o[2], true)
+			if src == dst {
+				stat("brepto_self_skipped") // replaying a batch into itself mutates it while it is read
+				break
+			}
+			fail("brepto", src.b.Replay(dst.b))
+			dst.ops = append(dst.ops, src.ops...)
+			stat("brepto")
 		case "brep":
 			r := &recorder{}
 			fail("brep", slot(o[1], true).b.Replay(r))
